@@ -131,10 +131,12 @@ package peers
 // (read-only pool operations: they take the pool lock and write nothing)
 //@ func (*pool).len
 //@   property C17
-//@   trusted
+//@   requires p != nil && !$PoolLocked && !$QueueLocked
+//@   ensures !$PoolLocked && !$QueueLocked
 //@ func (*pool).has
 //@   property C17
-//@   trusted
+//@   requires p != nil && !$PoolLocked && !$QueueLocked
+//@   ensures !$PoolLocked && !$QueueLocked
 //@ func (*pool).next
 //@   property C17
 //@   trusted
